@@ -645,6 +645,9 @@ pub fn run(tier: Tier, seed: u64) -> i32 {
     all_splits(&rep, seed ^ 0x77, tier.pick(60, 400), 10);
     random_streams(&rep, seed, tier.pick(4000, 60_000), tier.pick(400, 600), tier.pick(3 << 20, 5 << 20));
     f5_class(&rep, seed, tier.pick(4000, 60_000));
+    if tier == Tier::Thorough {
+        crate::miri::run_slices(&rep, "chunker", 16, 60, "");
+    }
     if rep.counter("boundaries.by_hash") == 0 || rep.counter("boundaries.by_max") == 0 {
         rep.broken("workload produced no hash-decided or no max-decided boundary".into());
     }
